@@ -9,7 +9,8 @@ import Emerge.Base
       if err != nil { if EOF && curr != 0 { return evalToken(curr) }; return err }
       next = advanceDFA(curr, r)
       if next == errorState { in.Retract(); return evalToken(curr) } }
-  evalToken: evalDFA(state) → ERR ⇒ error; WS/EOL/COMMENT ⇒ NextToken(); otherwise the token.
+  evalToken: evalDFA(state) → ERR ⇒ error; WS/EOL/COMMENT ⇒ skipped, NextToken scans on (loop over scanToken);
+             otherwise the token.
 -/
 namespace Emerge.Scanner
 
